@@ -86,7 +86,7 @@ class Ctx:
         except hypothesis.errors.HypothesisException as e:
             raise HarnessError("hypothesis: %s: %s" % (type(e).__name__, e))
 
-    def run_machine(self, machine_cls, max_examples, steps, shrink=True, name=None):
+    def run_machine(self, machine_cls, max_examples, steps, shrink=True, name=None, flaky_is_state_leak=False):
         import hypothesis
         from hypothesis import HealthCheck, Phase, settings
         from hypothesis.stateful import run_state_machine_as_test
@@ -96,10 +96,21 @@ class Ctx:
             derandomize=False, report_multiple_bugs=False, phases=phases, print_blob=False,
             suppress_health_check=list(HealthCheck),
         )
+        from . import LAST_VIOLATION
+        LAST_VIOLATION[0] = None
         try:
             run_state_machine_as_test(hypothesis.seed(self.seed_for(name or self.sub))(machine_cls), settings=st)
         except PropertyViolation:
             raise
+        except hypothesis.errors.Flaky as e:
+            v = LAST_VIOLATION[0]
+            if flaky_is_state_leak and v is not None:
+                # the harness is a pure function of the drawn history; a history that fails once and not when it is
+                # re-run in the same process means that state of the code under test survived between histories
+                raise PropertyViolation(v.bucket + "/state-survives-between-histories",
+                                        "%s (not reproducible when the same history is re-run in the same process: %s)" % (
+                                            v.message, type(e).__name__), v.case)
+            raise HarnessError("hypothesis: %s: %s" % (type(e).__name__, e))
         except hypothesis.errors.HypothesisException as e:
             raise HarnessError("hypothesis: %s: %s" % (type(e).__name__, e))
 
